@@ -206,6 +206,9 @@ PROPS["C10"]["tasks"] += ["IndexMarket.__init__", "SequentialRunner._generate_ma
 PROPS["C17"]["tasks"] += ["IndexMarket.__init__"]
 PROPS["C12"]["tasks"] += ["SequentialRunner._generate_markets[fundamental-parameters]", "SequentialRunner._generate_markets[create]"]
 PROPS["C18"]["tasks"] += ["SequentialRunner._generate_markets[fundamental-parameters]", "SequentialRunner._generate_markets[create]"]
+# C07 "running does not modify the caller's settings object": every function that receives (a part of) the settings has a frame that excludes the settings maps
+PROPS["C07"]["tasks"] += ["Session.setup", "Agent.setup", "FundamentalPriceShock.setup", "OrderMistakeShock.setup", "PriceLimitRule.setup", "TradingHaltRule.setup", "IndexMarket.setup",
+                          "Market.__init__ + setup establish the pre-first-tick MarketInv"]
 for _p in ("C07", "C13", "C15", "C16", "C18"):
     PROPS[_p]["tasks"].append("effects:no-shared-mutable-state")
 PROPS["C15"]["tasks"] += ["PriceLimitRule.setup"]
